@@ -17,9 +17,14 @@ def c15():
          inst("VP_C15_Stall", {"stalled": 3}, {"kind": [0, 1]}, tiers=("thorough",))]
     X = [{"target": "crypto/tls.X509KeyPair", "with": P + "vp05SrvX509KeyPair"}, {"target": "crypto/x509.NewCertPool", "with": P + "vp05SrvNewCertPool"},
          {"target": "(*crypto/x509.CertPool).AppendCertsFromPEM", "with": P + "vp05SrvAppendCertsFromPEM"}]
-    return {"property": "C15", "package": SERVER_PKG, "files": ["../C03/srv_env.go", "../C03/c03_routing.go", "../C05/c05_server.go", "c15_stall.go"], "native_replay": False,
-            "init_allow": SERVER_INIT, "stubs": server_stubs() + X, "instances": i,
-            "bounds": {"peers": "1-2 (3 thorough) stalled peers followed by one well-behaved peer on the socket server's (plain, and TLS with client certificates required: the listener hands out connections whose TLS handshake runs on first use and consumes the peer's hello) and the packet server's real Startup + accept loop (the dns server uses the socket server's loop; the http server's per-request goroutines are net/http's)",
+    D = "github.com/bokysan/socketace/v2/internal/streams/dns"
+    gd = {"package": D, "files": ["c15_dns.go"], "native_replay": False,
+          "stubs": [{"target": "github.com/bokysan/socketace/v2/internal/streams/dns/commands.randomChars", "with": D + ".vp15RandomChars"}],
+          "instances": [inst("VP_C15_DnsAccept", {}, {"peers": [2, 3]}, expect_reach=["accepted"])]}
+    return {"property": "C15", "groups": [{"package": SERVER_PKG, "files": ["../C03/srv_env.go", "../C03/c03_routing.go", "../C05/c05_server.go", "c15_stall.go"], "native_replay": False,
+            "init_allow": SERVER_INIT, "stubs": server_stubs() + X, "instances": i}, gd],
+            "bounds": {"peers": "1-2 (3 thorough) stalled peers followed by one well-behaved peer on the socket server's (plain, and TLS with client certificates required: the listener hands out connections whose TLS handshake runs on first use and consumes the peer's hello) and the packet server's real Startup + accept loop (the dns server runs the socket server's loop over ServerDnsListener.Accept, checked separately; the http server's per-request goroutines are net/http's)",
+                       "dns": "DNS endpoint: 2-3 peers complete the version exchange with the real onMessage, all but the last stall (right after it or after one tunnel packet - symbolic), the last sends data: ServerDnsListener.Accept hands its session out and the data is readable",
                        "stall_points": "after connect, inside the request line, unterminated headers, between the two requests, inside the second request, a TLS hello on a plain endpoint; on the TLS endpoint also before and inside the TLS hello - symbolic choice per stalled peer",
                        "schedules": "every schedule at blocking points (symbolic scheduler)"},
             "assumptions": [SCHED, "listener, connections, smux are the contract stubs of harness/C03/srv_env.go; a stalled peer's connection stays open and silent for ever; real time is not modelled", NO_REPLAY]}
